@@ -137,7 +137,8 @@ class poller( object ):
         log.detail( "%s/%6d %s= None (forgetting %s)",
                     self.description, address, "-x" if not self.online else "--",
                     self._data.get(address))
-        self._data[address]		= None
+        if address in self._data: # forgetting what was never requested must not request it
+            self._data[address]	= None
 
     def forget( self, address ):
         """Forget about any data from the provided address."""
